@@ -74,7 +74,8 @@ pub enum Family {
     /// length, 2 number of vertex attributes, 3 number of constants and overrides, 4 kilobytes of
     /// comments, 5 block nesting depth inside one function, 6 switch cases / loops with calls,
     /// 7 let-bound expressions each used twice by the next (a DAG with 2^n paths), 8 call results as
-    /// call arguments nested n deep, 9 one expression of n terms that are calls.
+    /// call arguments nested n deep, 9 one expression of n terms that are calls,
+    /// 10 n bind groups.
     Shapes { shape: u8, n: u32 },
     /// Programs that are REJECTED, at size: 0 hundreds of bindings but no group 0, 1 hundreds of
     /// bindings and one duplicate at the very end, 2 a large valid program with a syntax error in
@@ -115,7 +116,8 @@ impl Family {
             Family::Shapes { shape: 6, .. } => "switch_cases_and_loops",
             Family::Shapes { shape: 7, .. } => "expression_dag",
             Family::Shapes { shape: 8, .. } => "nested_call_arguments",
-            Family::Shapes { .. } => "long_expression_chain",
+            Family::Shapes { shape: 9, .. } => "long_expression_chain",
+            Family::Shapes { .. } => "many_bind_groups",
             Family::GlobalsGraph { .. } => "globals_x_call_graph",
             Family::Chain { pure_helpers: true, .. } => "chain_pure",
             Family::Diamond { pure_helpers: true, .. } => "diamond_pure",
@@ -558,7 +560,7 @@ pub fn source(family: &Family) -> String {
         }
         Family::Shapes { shape, n } => {
             let n = (*n).max(1);
-            match shape % 10 {
+            match shape % 11 {
                 0 => {
                     let depth = n.min(24);
                     let mut ty = "f32".to_string();
@@ -642,6 +644,26 @@ pub fn source(family: &Family) -> String {
                         e = if level % 2 == 0 { format!("na({e})") } else { format!("nb({e}, 0.5)") };
                     }
                     let _ = writeln!(out, "@compute @workgroup_size(1)\nfn cs_main() {{\n    acc_buf[0] = {e};\n}}");
+                }
+                10 => {
+                    // n bind groups of one to three bindings each: whatever enumerates subsets or
+                    // pairs of groups (layout compatibility, visibility merging) meets 2^n or n^2
+                    let groups = n.min(64);
+                    for g in 0..groups {
+                        let _ = writeln!(out, "@group({g}) @binding(0) var<uniform> bg{g}_a: vec4<f32>;");
+                        if g % 2 == 0 {
+                            let _ = writeln!(out, "@group({g}) @binding(1) var<storage, read_write> bg{g}_b: array<f32>;");
+                        }
+                        if g % 5 == 0 {
+                            let _ = writeln!(out, "@group({g}) @binding(4) var<storage, read> bg{g}_c: array<vec4<f32>>;");
+                        }
+                    }
+                    let _ = writeln!(out, "@compute @workgroup_size(1)\nfn cs_main() {{\n    var t = 0.0;");
+                    for g in 0..groups {
+                        let _ = writeln!(out, "    t = t + bg{g}_a.x;");
+                    }
+                    let _ = writeln!(out, "    bg0_b[0] = t;\n}}");
+                    let _ = writeln!(out, "@fragment\nfn fs_main() -> @location(0) vec4<f32> {{\n    return bg{}_a;\n}}", groups - 1);
                 }
                 9 => {
                     // one expression with n terms, each a call
@@ -1137,6 +1159,7 @@ pub fn systematic_families() -> Vec<Family> {
         (7, &[4, 24, 64]),
         (8, &[4, 24, 48]),
         (9, &[10, 120, 400]),
+        (10, &[3, 24, 64]),
     ] {
         for n in sizes {
             v.push(Family::Shapes { shape, n: *n });
@@ -1178,8 +1201,8 @@ pub fn random_family(rng: &mut Rng) -> Family {
             helpers: rng.range(0, 150) as u32,
         },
         4 if rng.chance(300) => {
-            let shape = rng.below(10) as u8;
-            let max = [24, 4000, 400, 600, 3000, 60, 500, 64, 48, 400][shape as usize];
+            let shape = rng.below(11) as u8;
+            let max = [24, 4000, 400, 600, 3000, 60, 500, 64, 48, 400, 64][shape as usize];
             Family::Shapes {
                 shape,
                 n: rng.range(1, max) as u32,
